@@ -58,7 +58,7 @@ theorem nl_step_rot (k : Keys) (c : RCfg) (L L2 w N : Nat) (B P B' : Block) (sgq
                                ghost := sA.ghost ++ [.adv sA.view q.view false], queue := [.viewChange (w + 1) false]
                                out := [.sendNewView L { qc := some q }] }
   have hadv : (advanceView k c { qc := some q }).run sA = pure ((), s1) := by
-    rw [advanceView_move k c sA q B ha (hverA sA rfl rfl) hlkB (by show s.view ≤ q.view; rw [hcore.view, hqv]; exact Nat.le_refl _)]
+    rw [advanceView_move k c sA q B ha (hverA sA rfl rfl) hlkB (by show s.view = q.view; rw [hcore.view, hqv])]
     have hnl : ¬ c.leader (sA.view + 1) = c.id := by rw [show sA.view = w from hcore.view, hld1]; exact fun e => hne e.symm
     rw [if_neg hnl]
     have hhq : ¬ B.view ≤ s.highQC.view := by rw [hcore.bview]; have := hcore.hq; omega
@@ -395,7 +395,7 @@ theorem coll_vote_quorum_self (k : Keys) (c : RCfg) (w N i id bytes : Nat) (B P 
     (by rw [hs6vl]; simp) (by rw [hs6vl]; simp; omega)
   let F : RState := addVoteS s6 b'.hash c.id (voteSig c b' (propS m))
   have hadv : (advanceView k c { qc := some qc }).run sC = pure ((), F) := by
-    rw [advanceView_move k c sC qc B ha (hverAll sC rfl rfl) hc.hasB (by rw [hsCview]; show w ≤ B.view; rw [hc.bview]; exact Nat.le_refl _)]
+    rw [advanceView_move k c sC qc B ha (hverAll sC rfl rfl) hc.hasB (by rw [hsCview]; show w = B.view; rw [hc.bview])]
     rw [if_pos (show c.leader (sC.view + 1) = c.id from hld1), hmhq, hrun, aggregateVote_self k c b' _ _ hld2]
     exact hcv2
   have ht2 : (tick k c).run sB = pure (true, F) :=
@@ -644,7 +644,7 @@ theorem coll_vote_quorum_send (k : Keys) (c : RCfg) (L2 w N i id bytes : Nat) (B
     show (tcS c b' v3).chain.blocks.lookup _ = _; rw [t1]; simp
   let F : RState := { s6 with out := s6.out ++ [.sendVote L2 (voteSig c b' (propS m)) b'.hash] }
   have hadv : (advanceView k c { qc := some qc }).run sC = pure ((), F) := by
-    rw [advanceView_move k c sC qc B ha (hverAll sC rfl rfl) hc.hasB (by rw [hsCview]; show w ≤ B.view; rw [hc.bview]; exact Nat.le_refl _)]
+    rw [advanceView_move k c sC qc B ha (hverAll sC rfl rfl) hc.hasB (by rw [hsCview]; show w = B.view; rw [hc.bview])]
     have hL2 : c.leader (b'.view + 1) = L2 := hld2
     rw [if_pos (show c.leader (sC.view + 1) = c.id from hld1), hmhq, hrun,
       aggregateVote_send k c b' _ _ (by rw [hL2]; exact fun e => hne2 e.symm), hL2]
@@ -792,7 +792,7 @@ theorem nl_step_coll (k : Keys) (c : RCfg) (L w N : Nat) (B P B' : Block) (sgq :
                                ghost := sA.ghost ++ [.adv sA.view q.view false], queue := [.viewChange (w + 1) false]
                                out := [.sendNewView L { qc := some q }] }
   have hadv : (advanceView k c { qc := some q }).run sA = pure ((), s1) := by
-    rw [advanceView_move k c sA q B ha (hverA sA rfl rfl) hlkB (by show s.view ≤ q.view; rw [hcore.view, hqv]; exact Nat.le_refl _)]
+    rw [advanceView_move k c sA q B ha (hverA sA rfl rfl) hlkB (by show s.view = q.view; rw [hcore.view, hqv])]
     have hnl : ¬ c.leader (sA.view + 1) = c.id := by rw [show sA.view = w from hcore.view, hld1]; exact fun e => hne e.symm
     rw [if_neg hnl]
     have hhq : ¬ B.view ≤ s.highQC.view := by rw [hcore.bview]; have := hcore.hq; omega
